@@ -158,3 +158,45 @@ Proof.
   intros H. cbn [judge]. rewrite (b64_roundtrip false b H), str_eqb_refl. cbn [option_eqb].
   rewrite !str_eqb_refl. reflexivity.
 Qed.
+
+(* ---- the cookie path and the long runs ---------------------------------------------------------- *)
+Lemma obs_of_store_of (mo : option N) : obs_of_store (store_of mo) = Some mo.
+Proof.
+  unfold obs_of_store, store_of. destruct mo as [v|]; [|reflexivity].
+  replace (10 + v =? 1) with false by lia. replace (10 <=? 10 + v) with true by lia.
+  do 2 f_equal. lia.
+Qed.
+
+(* what the model predicts LoadSession observes *)
+Definition model_store (m : dec_mode) (gs : list gen) (pk : N) (lines : list str) : N :=
+  match cookie_lookup cookie_name lines with
+  | None => 3
+  | Some cv => store_of (model_unmarshal m gs pk cv)
+  end.
+
+Theorem judge_cookie_model_ok gs m pk lines :
+  forallb genuine_ok gs = true -> nodup_texts gs = true ->
+  let r := judge_cookie m gs pk lines (model_store m gs pk lines) in
+  r = 0 \/ (r = 101 /\ m_strict m = false) \/ (r = 102 /\ m_nocrlf m = false).
+Proof.
+  intros Hok Hnd. unfold judge_cookie, model_store.
+  destruct (cookie_lookup cookie_name lines) as [cv|].
+  - rewrite obs_of_store_of.
+    assert (Hst : store_agrees (store_of (model_unmarshal m gs pk cv)) (model_unmarshal m gs pk (presented gs (PWhole cv))) = true).
+    { unfold store_agrees. cbn [presented]. rewrite N.eqb_refl. apply orb_true_r. }
+    destruct (judge_model_ok gs Hok m pk (PWhole cv) _ Hnd Hst) as [H|[[H [_ H']]|[H [_ H']]]]; cbn [presented] in H; auto.
+  - cbn. rewrite Hok. left. reflexivity.
+Qed.
+
+Corollary judge_cookie_model_strict gs m pk lines :
+  m_strict m = true -> m_nocrlf m = true -> forallb genuine_ok gs = true -> nodup_texts gs = true ->
+  judge_cookie m gs pk lines (model_store m gs pk lines) = 0.
+Proof.
+  intros H1 H2 Hok Hnd. destruct (judge_cookie_model_ok gs m pk lines Hok Hnd) as [H|[[_ H]|[_ H]]];
+    [exact H | congruence | congruence].
+Qed.
+
+(* long runs: on the model's prediction (strings distinct exactly as the (value, nonce) pairs are, all
+   open) the monitor holds iff the nonces drawn were all different — the crypto/rand assumption *)
+Lemma judge_fresh_model n d : judge_fresh n d d None true = if d =? n then 0 else 2.
+Proof. unfold judge_fresh. rewrite N.eqb_refl. cbn. destruct (d =? n); reflexivity. Qed.
